@@ -112,7 +112,7 @@ def generate(repo, g):
         g.fp(typeshed, d)
     for d in ['get_module_info', '_find_module', '_find_module_py33', '_from_loader']:
         g.fp(fns, d)
-    for d in ['FileIO', 'KnownContentFileIO', 'ZipFileIO', 'FileIOFolderMixin']:
+    for d in ['FileIO', 'KnownContentFileIO', 'ZipFileIO', 'FileIOFolderMixin', 'FolderIO', 'AbstractFolderIO']:
         g.fp(fileio, d)
 
 
